@@ -82,6 +82,19 @@ def cases(tier, seed):
         for seq in itertools.product(list(HOPS), repeat=n):
             out.append({"id": "hist:" + ">".join(seq), "kind": "history",
                         "seq": list(seq), "ref": {o: refs[o] for o in seq}})
+    # detector azimuths / polar angles outside the principal range (a
+    # spherical point detector passes them through unchanged)
+    for i, (th, ph) in enumerate([(0.5, -0.5), (0.5, 7.0), (0.5, -7.0),
+                                  (0.5, 100.0), (1.0, 2 * math.pi),
+                                  (0.0, -1e-9), (math.pi, 4.0)]):
+        out.append({"id": "robust-detector-angle#%d" % i, "kind": "robustdet",
+                    "theta": th, "phi": ph})
+    # absurd sizes
+    for sh in ROB_SHAPES[:2] + ["sphere"]:
+        for x in (1e5, 1e10, 1e13):
+            out.append({"id": "robust-size:%s:x=%r" % (sh, x),
+                        "kind": "robust", "shape": sh, "x": x, "beta": 0.4,
+                        "gamma": 0.7})
     # sizes beyond the Fortran dimension limits
     for sh in ROB_SHAPES[:2]:
         for x in ([150.0] if tier == "quick" else [105.0, 150.0, 250.0]):
@@ -324,12 +337,56 @@ def _run_sym(case, ck):
     return digest(*fps)
 
 
+def _run_robustdet(case, ck):
+    import holopy as hp
+    from holopy.scattering import (Tmatrix, Sphere, calc_scat_matrix,
+                                   calc_field)
+    th, ph = case["theta"], case["phi"]
+    outs = []
+    for name, s in (("spheroid", _shape("spheroid2", 4.0, 0.4, 0.7)),
+                    ("sphere", Sphere(n=1.59, r=4.0 / H.K, center=CENTER))):
+        det = hp.detector_points(theta=np.array([th, 0.3]),
+                                 phi=np.array([ph, 1.0]), r=50.0)
+        try:
+            S = calc_scat_matrix(det, s, H.NMED, H.WL,
+                                 theory=Tmatrix()).values
+            f = calc_field(det, s, H.NMED, H.WL, (1, 0),
+                           theory=Tmatrix()).values
+            ck.trans += 2
+        except Exception as e:
+            outs.append("exception:" + type(e).__name__)
+            continue
+        ck.true("finite", np.isfinite(S).all() and np.isfinite(f).all(),
+                "non-finite values at detector angles theta=%r phi=%r" %
+                (th, ph))
+        # the same direction written in the principal range
+        ph2 = ph % (2 * math.pi)
+        det2 = hp.detector_points(theta=np.array([th, 0.3]),
+                                  phi=np.array([ph2, 1.0]), r=50.0)
+        S2 = calc_scat_matrix(det2, s, H.NMED, H.WL,
+                              theory=Tmatrix()).values
+        ck.trans += 1
+        e = float(np.abs(S - S2).max() / np.abs(S2).max())
+        ck.metric("equivalent-azimuth", e)
+        ck.true("equivalent-azimuth", e <= 1e-6, "%s: azimuth %r gives a "
+                "scattering matrix that differs by %.2e from the same "
+                "direction written as %r" % (name, ph, e, ph2))
+        outs.append(fp_values(S))
+    return digest(*outs), "ok"
+
+
 def _run_robust(case, ck):
     from holopy.scattering import Tmatrix, calc_holo
     sh, x, b, g = case["shape"], case["x"], case["beta"], case["gamma"]
     det = H.det_points([[0.0, 0.0, 0.0], [0.9, 0.2, 0.0], [-0.5, 1.1, 0.0]])
     try:
-        s = _shape(sh, x, b, g, center=(0.2, 0.1, max(8.0, 3 * x / H.K)))
+        if sh == "sphere":
+            from holopy.scattering import Sphere
+            s = Sphere(n=1.59, r=x / H.K,
+                       center=(0.2, 0.1, max(8.0, 3 * x / H.K)))
+        else:
+            s = None
+        s = s or _shape(sh, x, b, g, center=(0.2, 0.1, max(8.0, 3 * x / H.K)))
         h = calc_holo(det, s, H.NMED, H.WL, (1, 0), theory=Tmatrix()).values
         ck.trans += 1
     except Exception as e:
@@ -360,6 +417,9 @@ def run_case(case):
     ck = Checker()
     if case["kind"] == "robust":
         fp, outcome = _run_robust(case, ck)
+        return ck.result(fp=fp, outcome=outcome)
+    if case["kind"] == "robustdet":
+        fp, outcome = _run_robustdet(case, ck)
         return ck.result(fp=fp, outcome=outcome)
     fp = {"sphere": _run_sphere, "equalaxes": _run_equalaxes,
           "sym": _run_sym, "history": _run_history}[case["kind"]](case, ck)
